@@ -1,7 +1,7 @@
 #!/bin/sh
 # tools/matrix.sh <seed-id>...: run every property's quick check against the scratch worktree /tmp/seed/<id> (patch applied) from a scratch copy of /verif
 for s in "$@"; do
-  d=/tmp/vm/$s; rm -rf $d; mkdir -p $d; rsync -a --exclude .git --exclude violations /verif/ $d/
+  d=/tmp/vm/$s; rm -rf $d; mkdir -p $d; rsync -a --exclude .git --exclude violations ${SRC:-/verif}/ $d/
   out=/tmp/vm/$s.txt; : > $out
   for p in C01 C02 C03 C04 C05 C06 C07 C08 C09 C10 C11 C12 C13 C14 C15 C16 C17 C18 C19 C20; do
     r=$(GEARPY_REPO=/tmp/seed/$s timeout 1500 $d/check $p 2>&1); rc=$?
